@@ -5,6 +5,9 @@ include!("isa_forms.rs");
 /// concrete), w[0..4] = the following words
 #[derive(Clone, Copy)]
 pub struct Words {
+    /// relaxed DIVXU: do not compute quotient/remainder, leave the destination lanes open (used where the
+    /// SAT-level equivalence of two dividers is out of reach; flags, frame, PC and cost stay exact)
+    pub relax_div: bool,
     /// concrete high nibble of b0 for the one-byte-opcode forms, 0xff = no hint
     pub hn: u8,
     pub b0: u8,
